@@ -260,6 +260,32 @@ fn main() {
                     Err(_) => "Err other".to_string(),
                 }
             }
+            // finish <total_len> <h1> <h2> <16 buffer bytes>: finish() from an arbitrary hasher state
+            "finish" => {
+                use scylla::routing::partitioner::PartitionerHasher;
+                let mut buf = [0u8; 16];
+                for i in 0..16 {
+                    buf[i] = num(4 + i) as u8;
+                }
+                let h = vh::murmur3_from_state(num(1) as u64 as usize, buf, num(2) as i64, num(3) as i64);
+                h.finish().value().to_string()
+            }
+            // murmur3 <nsplits 0|1> [<split>] <bytes...>: token of the byte string, optionally fed in two chunks
+            "murmur3" => {
+                use scylla::routing::partitioner::{Murmur3Partitioner, Partitioner, PartitionerHasher};
+                let two = num(1) == 1;
+                let off = if two { 3 } else { 2 };
+                let data: Vec<u8> = (off..a.len()).map(|i| num(i) as u8).collect();
+                let mut h = Murmur3Partitioner.build_hasher();
+                if two {
+                    let s = num(2) as usize;
+                    h.write(&data[..s]);
+                    h.write(&data[s..]);
+                } else {
+                    h.write(&data);
+                }
+                h.finish().value().to_string()
+            }
             "token_new" => Token::new(num(1) as i64).value().to_string(),
             _ => "UNKNOWN".to_string(),
         };
